@@ -125,6 +125,38 @@ def property_holds(prog, res):
     return None
 
 
+def lost_wakeup(n, trace):
+    """'none of which ... loses a wake-up', on the raw event log (independent of the Coq model): when work_queue leaves its
+    critical section having queued an item while some worker is asleep in pthread_cond_wait on `received_work` (and has not
+    been signalled since), the acceptor must signal that condition before its next action; otherwise the item sits in the
+    queue next to a sleeping worker until some other event happens to wake one."""
+    evs = [] if trace in ("-", "") else [e.split(":") for e in trace.split(",")]
+    shadow = ["ready"] * n
+    for k, e in enumerate(evs):
+        t = e[0]
+        if t in ("s", "r", "f"):
+            shadow[int(e[1])] = {"W": "waiting", "U": "working", "D": "dead"}[e[2]]
+        elif t == "d":
+            shadow[int(e[1])] = "dead"
+        elif t == "G":
+            for i in range(n):
+                if shadow[i] == "waiting":
+                    shadow[i] = "woken"
+                    break
+        elif t == "Q":
+            asleep = [i for i in range(n) if shadow[i] == "waiting"]
+            if not asleep:
+                continue
+            for e2 in evs[k + 1:]:
+                if e2[0] == "G":
+                    break
+                if e2[0] in ("Q", "W", "Z", "C"):
+                    return ("lost wake-up: work_queue queued item %s while worker %d was asleep in pthread_cond_wait(received_work) "
+                            "and returned without signalling it (event #%d of the log); the item waits next to a sleeping worker"
+                            % (e[1], asleep[0], k))
+    return None
+
+
 # --------------------------------------------------------------------------- event log -> LTS labels
 def to_tokens(n, trace):
     """Turn the harness event log into labels (+ observed outcomes) of WorkModel.  The only inference is which
@@ -403,6 +435,11 @@ def run(ctx):
             why = property_holds(prog, res)
         except (ValueError, KeyError, IndexError) as ex:
             corr.append((prog, "harness answer cannot be parsed (%r)" % ex, o)); continue
+        if not why and res and "trace" in res and res.get("hang") != "1":
+            try:
+                why = lost_wakeup(int(f[1]), res["trace"])
+            except (ValueError, KeyError, IndexError):
+                why = None
         if why:
             failures.append((prog, o, why, {}))
         if res and "trace" in res and res.get("hang") != "1":
